@@ -5,7 +5,7 @@
      sql/elements.py   ClauseElement._compile_w_cache (the cache key holds only bool(map)),
      engine/base.py    Connection._execute_ddl (DDL is compiled on every execution, never cached),
      engine/default.py DefaultExecutionContext._init_compiled / _init_ddl / _execute_scalar /
-                       _exec_default_clause_element (a pre-executed SQL default is compiled WITHOUT the map)
+                       _exec_default_clause_element (a pre-executed SQL default is compiled with the current map)
    and the SPEC side: the schema a table would carry if it were rebuilt with the translated name
    ([target], [subst_schemas]) and what such a statement compiles to without any map ([compile_plain]).
 
@@ -174,7 +174,7 @@ Definition compile_sym (inc : bool) (s : stmt) : result str :=
   bind (segs_of inc s) (fun g => Ok (flat g)).
 
 (* ---- _render_schema_translates ---- *)
-(* d after  d["_none"] = d[None]  (executed when None in d) *)
+(* d after  d = dict(d); d["_none"] = d[None]  (a copy, made when None in d; the caller's dict is untouched) *)
 Definition d_has (d : smap) (name : str) : bool :=
   (has_none d && str_eqb name none_name) || has_key (Some name) d.
 Definition d_get (d : smap) (name : str) : option str :=
@@ -234,15 +234,17 @@ Definition exec_cached (c : cache) (sid : nat) (m : smap) : cache * result str :
 Definition exec_ddl (sid : nat) (m : smap) : result str :=
   if is_empty m then Ok (compile_plain (stmts sid))
   else bind (compile_sym (has_none m) (stmts sid)) (render_translates (has_none m) m).
-(* _exec_default_clause_element: select(default).compile(dialect=...) - no map - then _execute_scalar
-   renders that text with the parent statement's preparer when the option is present.
+(* _exec_default_clause_element: select(default).compile(dialect=..., schema_translate_map=<the map of the
+   execution options>) - a fresh compilation with the CURRENT map, never cached - then _execute_scalar renders
+   that text with the parent statement's preparer (whose None-key state is the cached one).
    _init_compiled runs _process_execute_defaults BEFORE it renders the parent statement, so the default's
    SELECT reaches the cursor first (this is the text observed here) *)
 Definition exec_scalar_default (c : cache) (sid dsid : nat) (m : smap) : cache * result str :=
   match get_compiled c sid m with
   | Err e => (c, Err e)
   | Ok (c', None) => (c', Ok (compile_plain (stmts dsid)))
-  | Ok (c', Some (inc, t)) => (c', render_translates inc m (compile_plain (stmts dsid)))
+  | Ok (c', Some (inc, t)) =>
+      (c', bind (compile_sym (has_none m) (stmts dsid)) (render_translates inc m))
   end.
 
 Definition step (c : cache) (o : op) : cache * option (result str) :=
@@ -316,12 +318,13 @@ Definition spec_exec (inc : bool) (m : smap) (s : stmt) : result str :=
   else if has_none m && negb inc then Err ENoneAdded
   else bind (direct_inc inc m s) (fun s' => Ok (compile_plain s')).
 
-(* the pre-executed default: never translated *)
+(* the pre-executed default: translated with the current map; the None-key check is the parent's *)
 Definition spec_scalar_default (inc : bool) (m : smap) (s ds : stmt) : result str :=
   if is_empty m then Ok (compile_plain ds)
   else if bracketed s then Err EBracket
+  else if bracketed ds then Err EBracket
   else if has_none m && negb inc then Err ENoneAdded
-  else Ok (compile_plain ds).
+  else direct m ds.
 
 (* which compilation governs statement [sid] after the operations [pre]: the first successful one with
    a non-empty map since the statement was last evicted *)
@@ -389,7 +392,7 @@ Definition op_ok (o : op) : bool :=
   match o with
   | Exec sid m | Ddl sid m => map_ok m && force_ok m (stmts sid)
   | ScalarDefault sid dsid m =>
-      map_ok m && force_ok m (stmts sid) && negb (occurs marker (compile_plain (stmts dsid)))
+      map_ok m && force_ok m (stmts dsid)
   | Evict _ => true
   end.
 
